@@ -121,7 +121,9 @@ def gen_resize(apis, inputs):
                 mode = "up"
                 target = [h * draw(st.integers(1, 3)), w * draw(st.integers(1, 3))]
             return {"img": spec, "target": target, "mode": mode,
-                    "api": draw(st.sampled_from(apis)), "input": draw(st.sampled_from(inputs))}
+                    "api": draw(st.sampled_from(apis)), "input": draw(st.sampled_from(inputs)),
+                    # data whose total vanishes (difference of two distributions, dipole) or is zero
+                    "data": draw(st.sampled_from(["general", "general", "general", "zero-sum", "all-zero"]))}
 
         return strat()
 
@@ -171,9 +173,19 @@ def _resize_nontrivial(case):
             or spec["payload"] == "vector" or spec["series"])
 
 
+def _resize_input(case):
+    img = gens.build_image(case["img"])
+    kind = case.get("data", "general")
+    if kind == "zero-sum":
+        img.img = img.img - img.img[::-1]  # antisymmetric along the rows: every column sums to zero exactly
+    elif kind == "all-zero":
+        img.img = np.zeros_like(img.img)
+    return img
+
+
 def check_resize_conservative(case):
     spec = case["img"]
-    img = gens.build_image(spec)
+    img = _resize_input(case)
     before = img.img.copy()
     t = _tags(spec, cls=_resize_class(case), api=case["api"])
     arg = img if case["input"] == "image" else img.img
@@ -192,14 +204,28 @@ def check_resize_conservative(case):
                         f"{before.shape}", t)
     s0 = before.astype(float).sum(axis=(0, 1))
     m0 = np.abs(before.astype(float)).sum(axis=(0, 1))
-    ok, msg = _close(arr.astype(float).sum(axis=(0, 1)), s0, m0, TOL_CV)
+    if not np.all(np.isfinite(arr)):
+        raise Violation("resize-conservative:nonfinite", f"{before.shape[:2]} -> {case['target']}: non-finite values "
+                        f"for finite input ({case.get('data', 'general')} data)", t)
+    ok, msg = _close(arr.astype(float).sum(axis=(0, 1)), s0, np.maximum(m0, 0.0), TOL_CV)
     if not ok:
         raise Violation("resize-conservative:sum", f"{before.shape[:2]} -> {case['target']} "
-                        f"({_resize_class(case)}): np.sum {msg}", t)
+                        f"({_resize_class(case)}, {case.get('data', 'general')} data): np.sum {msg}", t)
+    if case.get("data") == "zero-sum" and before.shape[0] % 2 == 0 and case["target"][0] % 2 == 0 \
+            and (before.shape[0] % case["target"][0] == 0 or case["target"][0] % before.shape[0] == 0):
+        # sub-region integrals: the upper half alone carries a non-zero sum which is conserved as well
+        h0, h1 = before.shape[0] // 2, case["target"][0] // 2
+        su0 = before[:h0].astype(float).sum(axis=(0, 1))
+        mu0 = np.abs(before[:h0].astype(float)).sum(axis=(0, 1))
+        ok, msg = _close(arr[:h1].astype(float).sum(axis=(0, 1)), su0, mu0, TOL_CV)
+        if not ok:
+            raise Violation("resize-conservative:half-sum", f"{before.shape[:2]} -> {case['target']}: sum over the "
+                            f"upper half {msg}", t)
     if not np.array_equal(img.img, before):
         raise Violation("resize:mutates", "input array modified", t)
     return Outcome(_resize_nontrivial(case), case,
-                   _labels(spec, _resize_class(case), f"api-{case['api']}", case["input"]))
+                   _labels(spec, _resize_class(case), f"api-{case['api']}", case["input"],
+                           f"data-{case.get('data', 'general')}"))
 
 
 def check_resize_area(case):
@@ -475,6 +501,28 @@ def _reduce_frame(out, img, spec, m, t):
         raise Violation("reduce:shape", f"{out.img.shape} vs {want_shape}", t)
     if out.series != img.series or out.scalar != img.scalar:
         raise Violation("reduce:kind", "series / scalar flag changed", t)
+    # physical extent of the retained axes: each retained Cartesian axis keeps its interval
+    # [min, max].  (Asserted where the library's reduced axis naming is coherent: both reductions in
+    # 2-D and the x / y reductions in 3-D; after a z reduction the unchanged library itself names the
+    # two retained axes crosswise, which no listed property covers.)
+    from vf.oracles import AXES, RefCS
+
+    c_red = [c for c, (mm, s_) in enumerate(AXES[dim]) if mm == m][0]
+    if dim == 2 or c_red in (0, 1):
+        old = RefCS(dim, spec["shape"], spec["dimensions"], spec["origin"])
+        lo_old = np.minimum(old.coordinate([0] * dim), old.coordinate(spec["shape"]))
+        hi_old = np.maximum(old.coordinate([0] * dim), old.coordinate(spec["shape"]))
+        kept = [c for c in range(dim) if c != c_red]
+        new = RefCS(dim - 1, list(want_shape[: dim - 1]), [float(d) for d in out.dimensions],
+                    [float(v) for v in np.asarray(out.origin)])
+        lo_new = np.minimum(new.coordinate([0] * (dim - 1)), new.coordinate(list(want_shape[: dim - 1])))
+        hi_new = np.maximum(new.coordinate([0] * (dim - 1)), new.coordinate(list(want_shape[: dim - 1])))
+        scale = np.abs(lo_old).max() + np.abs(hi_old).max() + 1.0
+        if np.any(np.abs(lo_new - lo_old[kept]) > 1e-12 * scale) or np.any(np.abs(hi_new - hi_old[kept]) > 1e-12 * scale):
+            raise Violation("reduce:extent", f"retained axes {['xyz'[c] for c in kept]} span "
+                            f"{list(zip(lo_old[kept].tolist(), hi_old[kept].tolist()))} in the input but "
+                            f"{list(zip(lo_new.tolist(), hi_new.tolist()))} in the reduced image (origin "
+                            f"{np.asarray(out.origin).tolist()})", t)
 
 
 def _reduce_labels(case):
